@@ -246,6 +246,14 @@ def judge(case, res):
         with open(main, 'w', encoding='utf-8') as f:
             f.write(main_text)
         hits = locate(root, case['fault'])
+        if case['cls'] == 'noinclude' and 'missing_' in case['fault'] and env.chash(case['fault'] + main_text)[0] % 2:
+            # the missing name is present as a DANGLING symbolic link (a checkout without its submodule, a removed build
+            # product): next to the including file and in a searched directory - still a missing include file
+            miss = case['fault'].split()[-1]
+            for d in {os.path.dirname(h[0]) for h in hits} | {os.path.join(root, 'inc1')}:
+                if not os.path.lexists(os.path.join(d, miss)):
+                    os.symlink(os.path.join(root, 'gone', 'nowhere-' + miss), os.path.join(d, miss))
+            res.count('missing_include_is_a_dangling_symlink')
         if case['cls'] == 'duplabel':
             ok_sites = hits
         elif case['cls'] == 'twin':
